@@ -1,4 +1,5 @@
-import Rangers.Proofs.JournalSteps
+import Rangers.Proofs.JournalSteps3
+import Rangers.Proofs.JournalRoot
 /-!
 # Property C04 — reverting to a snapshot restores the account state exactly
 
@@ -19,23 +20,66 @@ All theorems are about `Rangers.Model.Journal` — the model `drv_c04` executes 
 namespace Rangers.Props.C04
 open Rangers Rangers.Model.Journal Rangers.Proofs.Journal
 
-/-- ops for which the undo-inverse lemma is proved (`Proofs/JournalSteps`) -/
+/-- ops whose undo-inverse lemma needs no side condition (`Proofs/JournalSteps*`); SetCode, Suicide, AddLog and
+    AddSlotToAccessList are covered under the conditions in `StepOk`; only `GetCommittedState` is left out -/
 def Covered : Op → Bool
   | .setNonce .. | .incNonce .. | .setData .. | .create .. => true
   | .addBal .. | .subBal .. | .setBal .. | .transfer .. | .qBal .. => true
+  | .addFT .. | .subFT .. | .setFT .. | .qFT .. => true
   | .addRefund .. | .subRefund .. | .alAddr .. | .tset .. => true
   | .snapshot | .revert .. => true
-  | .qExist .. | .qEmpty .. | .qNonce .. | .qData .. | .qSuicided .. | .qCodeSize .. | .qCodeHash .. => true
+  | .qExist .. | .qEmpty .. | .qNonce .. | .qData .. | .qSuicided .. | .qCode .. | .qCodeSize .. | .qCodeHash .. => true
   | _ => false
+
+/-- `SetCode` journals the previous code hash through `common.BytesToHash`: the object's current code
+    hash must be a 32-byte hash (true of every hash the package itself produces) -/
+def CodeHashOk (s : ADB) (a : Addr) : Prop :=
+  match (resolveNew s a).2 with
+  | some o => o.codeHash.length = 32
+  | none => True
+
+instance (s : ADB) (a : Addr) : Decidable (CodeHashOk s a) := by
+  unfold CodeHashOk; split <;> infer_instance
+
+/-- side condition of one op in the state it is executed in -/
+def StepOk (c : Cfg) (s : ADB) : Op → Prop
+  | .setCode a _ _ => CodeHashOk s a
+  | .suicide a => SuicideOk c s a
+  | .addLog .. => AddLogOk s
+  | .alSlot a _ => AddSlotOk s a
+  | op => Covered op = true
+
+instance (c : Cfg) (s : ADB) (op : Op) : Decidable (StepOk c s op) := by
+  unfold StepOk; split <;> infer_instance
+
+instance decRunOk (c : Cfg) : (ops : List Op) → (s : ADB) → Decidable (RunOk (StepOk c) c s ops)
+  | [], _ => isTrue trivial
+  | op :: ops, s => @instDecidableAnd _ _ inferInstance (decRunOk c ops (step c s op))
+
+/-- what `StepOk` excludes: `GetCommittedState`, and the four ops with a side condition when it fails -/
+theorem uncovered_ops (c : Cfg) (s : ADB) (op : Op) (h : ¬ StepOk c s op) :
+    (∃ a k, op = .qCommitted a k) ∨ (∃ a cd hh, op = .setCode a cd hh ∧ ¬ CodeHashOk s a) ∨
+    (∃ a, op = .suicide a ∧ ¬ SuicideOk c s a) ∨ (∃ a t d, op = .addLog a t d ∧ ¬ AddLogOk s) ∨
+    (∃ a sl, op = .alSlot a sl ∧ ¬ AddSlotOk s a) := by
+  cases op <;> simp_all [StepOk, Covered]
 
 /-- every op of the run is covered -/
 def AllCovered (ops : List Op) : Prop := ∀ op ∈ ops, Covered op = true
 
 instance (ops : List Op) : Decidable (AllCovered ops) := by unfold AllCovered; infer_instance
 
-theorem step_revAt (c : Cfg) (hp : c.p002 = true) (s : ADB) (op : Op) (hc : Covered op = true)
+theorem step_revAt (c : Cfg) (hp : c.p002 = true) (s : ADB) (op : Op) (hc : StepOk c s op)
     (h1 : op ≠ Op.snapshot) (h2 : ∀ id, op ≠ Op.revert id) : RevAt c (fun x => step c x op) s := by
   cases op with
+  | setCode a code h =>
+    refine revAt_setCode c s a code h (fun s1 o hr => ?_)
+    have : CodeHashOk s a := hc
+    unfold CodeHashOk at this
+    rw [hr] at this; exact this
+  | suicide a => exact revAt_suicide c s a hc
+  | addLog a t d => exact revAt_addLog c s a t d hc
+  | alSlot a sl => exact revAt_alSlot c s a sl hc
+  | qCode a => exact revAt_qCode c s a
   | setNonce a n => exact revAt_setNonce c s a n
   | incNonce a => exact revAt_incNonce c s a
   | setData a k v => exact revAt_setData c s a k v
@@ -45,6 +89,10 @@ theorem step_revAt (c : Cfg) (hp : c.p002 = true) (s : ADB) (op : Op) (hc : Cove
   | setBal a n => exact revAt_setBalance c s a n
   | transfer a b n => exact revAt_transfer c hp s a b n
   | qBal a => exact revAt_getBalance c s a
+  | addFT a k n => exact revAt_addFT c s a k n
+  | subFT a k n => exact revAt_subFT c s a k n
+  | setFT a k n => exact revAt_setFT c s a k n
+  | qFT a k => exact revAt_getFT c s a k
   | addRefund g => exact revAt_addRefund c s g
   | subRefund g => exact revAt_subRefund c s g
   | alAddr a => exact revAt_alAddr c s a
@@ -58,14 +106,17 @@ theorem step_revAt (c : Cfg) (hp : c.p002 = true) (s : ADB) (op : Op) (hc : Cove
   | qSuicided a => exact revAt_qSuicided c s a
   | qCodeSize a => exact revAt_qCodeSize c s a
   | qCodeHash a => exact revAt_qCodeHash c s a
-  | _ => simp [Covered] at hc
+  | _ => simp [StepOk, Covered] at hc
+
+theorem stepOk_of_covered (c : Cfg) (s : ADB) (op : Op) (h : Covered op = true) : StepOk c s op := by
+  cases op <;> first | exact h | simp [Covered] at h
 
 theorem runOk_of_allCovered (c : Cfg) (ops : List Op) (h : AllCovered ops) (s : ADB) :
-    RunOk (fun _ op => Covered op = true) c s ops := by
+    RunOk (StepOk c) c s ops := by
   induction ops generalizing s with
   | nil => trivial
   | cons op ops ih =>
-    exact ⟨h op (List.mem_cons_self ..), ih (fun o ho => h o (List.mem_cons_of_mem _ ho)) _⟩
+    exact ⟨stepOk_of_covered c _ _ (h op (List.mem_cons_self ..)), ih (fun o ho => h o (List.mem_cons_of_mem _ ho)) _⟩
 
 /-- `Sim`-equal states answer every query of the property alike -/
 theorem obs_of_sim (c : Cfg) {s t : ADB} (h : Sim s t) (hs : s.crashed = false) (a : Addr) (k : Key) (th hh : Hash) :
@@ -122,22 +173,23 @@ snapshot, run any list of covered ops — nested snapshots and reverts to any id
 to the snapshot.  If that revert does not panic, every query of the property answers as it did
 when the snapshot was taken. -/
 theorem revert_restores_obs_partial (c : Cfg) (hp : c.p002 = true) (s : ADB) (G : List ADB) (ops : List Op)
-    (hs : s.crashed = false) (ok : RevsOk s) (inv : Inv c s G) (hcov : AllCovered ops)
+    (hs : s.crashed = false) (ok : RevsOk s) (inv : Inv c s G) (hrun : RunOk (StepOk c) c (snapshot s).1 ops)
     (hnc : (revert c (run c (snapshot s).1 ops) (snapshot s).2).crashed = false)
     (a : Addr) (k : Key) (th h : Hash) :
     obs c (revert c (run c (snapshot s).1 ops) (snapshot s).2) a k th h = obs c s a k th h := by
-  have hsim := revert_sim_generic c (fun _ op => Covered op = true)
-    (fun s op hc h1 h2 => step_revAt c hp s op hc h1 h2) ops hs ok inv (runOk_of_allCovered c ops hcov _) hnc
+  have hsim := revert_sim_generic c (StepOk c)
+    (fun s op hc h1 h2 => step_revAt c hp s op hc h1 h2) ops hs ok inv hrun hnc
   exact obs_of_sim c hsim hnc a k th h
 
-/-- the same from a state with an empty revision stack (start of a transaction) -/
+/-- the same from a state with an empty revision stack (start of a transaction); for runs without
+    `SetCode` the side condition is just `AllCovered ops` (`runOk_of_allCovered`) -/
 theorem revert_restores_obs_fresh (c : Cfg) (hp : c.p002 = true) (s : ADB) (ops : List Op)
-    (hs : s.crashed = false) (hr : s.revisions = []) (hcov : AllCovered ops)
+    (hs : s.crashed = false) (hr : s.revisions = []) (hrun : RunOk (StepOk c) c (snapshot s).1 ops)
     (hnc : (revert c (run c (snapshot s).1 ops) (snapshot s).2).crashed = false)
     (a : Addr) (k : Key) (th h : Hash) :
     obs c (revert c (run c (snapshot s).1 ops) (snapshot s).2) a k th h = obs c s a k th h :=
   revert_restores_obs_partial c hp s [] ops hs
-    ⟨by simp [hr], by simp [hr], by simp [hr]⟩ ⟨by simp [hr], by simp [hr]⟩ hcov hnc a k th h
+    ⟨by simp [hr], by simp [hr], by simp [hr]⟩ ⟨by simp [hr], by simp [hr]⟩ hrun hnc a k th h
 
 /-- every `undo` method maps states that answer all queries alike to such states -/
 theorem undo_respects_view (c : Cfg) (s t : ADB) (e : Entry) (h : Sim s t) : Sim (undo c s e) (undo c t e) :=
@@ -157,6 +209,10 @@ def demoOps : List Op :=
 /-- non-vacuity of `revert_restores_obs_fresh`: hypotheses hold for a concrete committed state and region,
     the region changes observations, and the revert brings them back -/
 example : AllCovered demoOps := by decide
+example : RunOk (StepOk c0) c0 (snapshot (setNonce ADB.empty A1 1)).1
+    (demoOps ++ [.setCode A1 [0x60] (toHash [9]), .addFT A1 [0x66, 0x3a, 0x78] 0, .suicide A1, .qFT A1 [0x66, 0x3a, 0x78],
+       .addLog A1 [] [1], .alSlot A1 (toHash [1]), .alSlot A1 (toHash [2]), .qCode A1]) := by
+  decide
 example : (revert c0 (run c0 (snapshot (setNonce ADB.empty A1 1)).1 demoOps) 0).crashed = false := by decide
 example : obs c0 (run c0 (snapshot (setNonce ADB.empty A1 1)).1 demoOps) A1 [0x6b] [] [1]
     ≠ obs c0 (setNonce ADB.empty A1 1) A1 [0x6b] [] [1] := by decide
@@ -242,6 +298,29 @@ theorem suicide_undo_rewrites_slot_counterexample :
     (obs c0 sPadded c0.tok (c0.balKey A1) [] []).slot = toHash [5] ∧
     (obs c0 r A1 [] [] []).balance = (obs c0 sPadded A1 [] [] []).balance := by
   decide
+
+/-- **C04, root clause (proved part).** A reverted region made only of ops that do not touch account
+objects — AddRefund, SubRefund, AddLog, AddAddressToAccessList, AddSlotToAccessList, SetTransientState,
+nested snapshots and reverts (6 of the 11 journal entry kinds) — leaves everything `Finalise` reads
+untouched, so `IntermediateRoot(d)` hashes exactly the content it would have hashed without the region.
+This hypothesis excludes all four root mechanisms of the counterexamples above, which need a region
+that writes to (or reads through) an account object. -/
+theorem revert_restores_root_partial (c : Cfg) (s : ADB) (region : List Op) (d : Bool)
+    (hs : s.crashed = false) (hr : s.revisions = []) (hops : ∀ op ∈ region, opGlobal op = true)
+    (hnc : (revert c (run c (snapshot s).1 region) (snapshot s).2).crashed = false) :
+    (finalise d (revert c (run c (snapshot s).1 region) (snapshot s).2)).trie = (finalise d s).trie :=
+  finalise_trie_congr d _ _ hnc hs (revert_objview_global c s region hs hr hops)
+
+/-- non-vacuity: such a region on a state with pending (dirty) account changes -/
+example : let s := setData (setNonce ADB.empty A1 1) A1 [0x6b] [7]
+    let region : List Op := [.addRefund 5, .snapshot, .tset A1 (toHash [1]) (toHash [2]), .alSlot A1 (toHash [1]),
+      .addLog A1 [] [1], .revert 1, .alAddr [0xa2], .subRefund 2]
+    (∀ op ∈ region, opGlobal op = true) ∧ s.revisions = [] ∧
+    (revert c0 (run c0 (snapshot s).1 region) (snapshot s).2).crashed = false ∧ (finalise true s).trie ≠ [] := by
+  decide
+
+/-- the side condition of `Suicide` in `StepOk` is exactly what fails in that history -/
+example : ¬ SuicideOk c0 (snapshot sPadded).1 A1 := by decide
 
 /-! ## revision stack -/
 
